@@ -16,7 +16,6 @@ set_option linter.unusedTactic false
 set_option linter.unreachableTactic false
 namespace Bridge
 variable {α : Type} [Field α] [LinearOrder α] [IsStrictOrderedRing α]
-  [HasSqrt α] [HasExp α] [HasLog α] [HasSin α] [HasCos α] [HasAsin α] [HasRpow α] [HasPi α] [HasRound α] [HasFloor α]
 
 theorem nk_interp :
     (∀ v1 v2 q : α, Gen.nk_interp v1 v2 q = Nk800.interpW .backward v1 v2 q) ∨
